@@ -556,6 +556,10 @@ pub fn checks(checks: &mut Vec<Check>) {
             add(concat!("surface-", stringify!($V), "-f32"), s, 24 * N + 64, q, surface::<f32, $V<f32>, N>);
             add(concat!("angle-", stringify!($V), "-f64"), a, 14 * N + 32, q, angle::<f64, $V<f64>, N>);
             add(concat!("angle-", stringify!($V), "-f32"), a, 14 * N + 32, q, angle::<f32, $V<f32>, N>);
+            let ie = "one lane holds +inf / -inf / NaN / -NaN / +0 / -0 / the smallest subnormal / -MIN_POSITIVE, the others ordinary values: magnitude_squared, magnitude, distance_squared, distance (both operand orders) and the magnitude returned by normalize(d)_and_get_magnitude are all +inf resp. all NaN resp. what they are with 0 in that lane";
+            let total = N as u64 * crate::ieee::KINDS;
+            checks.push(Check { name: concat!("ieee-", stringify!($V), "-f64"), about: ie, kind: Kind::Index { total, quick: total, thorough: total, f: crate::ieee::ieee_case::<f64, $V<f64>, N> } });
+            checks.push(Check { name: concat!("ieee-", stringify!($V), "-f32"), about: ie, kind: Kind::Index { total, quick: total, thorough: total, f: crate::ieee::ieee_case::<f32, $V<f32>, N> } });
         }};
     }
     reg!(Vec2, 2, 10_000);
